@@ -2,7 +2,7 @@
 # seed_regress.sh [seed-ids...] : re-apply every kept seeded change to a scratch COPY of /repo and re-run the
 # checks named in its meta.json ("property") from a SNAPSHOT of /verif; a kept seed that no check reports any more
 # is a regression of the verification.  Results: /tmp/xv_seedreg/summary.txt (one line per seed).
-OUT=/tmp/xv_seedreg; SCR=$OUT/repo; V=$OUT/verif
+OUT=${XV_REG_OUT:-/tmp/xv_seedreg}; SCR=$OUT/repo; V=$OUT/verif
 mkdir -p $OUT; : > $OUT/summary.txt
 rm -rf $V; rsync -a --exclude .git --exclude out --exclude evidence /verif/ $V/
 cd $V
